@@ -254,7 +254,7 @@ Section Board.
     In s sh ->
     In x ([t_label (s_text s); s_tooltip s; s_pretty s]
           ++ flat_map (fun f => [f_name f; f_type f]) (s_fields s ++ s_methods s)
-          ++ flat_map (fun c => [c_name c; c_type c]) (s_columns s)) ->
+          ++ flat_map (fun c => [c_name c; c_type c; constraint_abbr c]) (s_columns s)) ->
     In x (all_strings d).
   Proof.
     intros Hs Hx. unfold all_strings. apply in_or_app. left. apply in_flat_map. exists s. auto.
@@ -263,7 +263,7 @@ Section Board.
   Lemma all_conn k x :
     In k cn -> In x [t_label (k_text k); opt_str (k_src k); opt_str (k_dst k)] -> In x (all_strings d).
   Proof.
-    intros Hk Hx. unfold all_strings. apply in_or_app. right. apply in_flat_map. exists k. auto.
+    intros Hk Hx. unfold all_strings. apply in_or_app. right. apply in_or_app. left. apply in_flat_map. exists k. auto.
   Qed.
 
   (* ---- shapes ---- *)
@@ -295,13 +295,13 @@ Section Board.
     assert (P : forall p, In p (column_pieces k) -> incl p cp).
     { intros p Hp. apply (piece_in_corpus s p Hs). unfold shape_pieces. rewrite Ty.
       apply in_or_app. right. apply in_or_app. right. apply in_flat_map. exists k. auto. }
-    assert (A : forall x, In x [c_name k; c_type k] -> bad x = true -> iv = true).
+    assert (A : forall x, In x [c_name k; c_type k; constraint_abbr k] -> bad x = true -> iv = true).
     { intros x Hx. apply (bad_of x). apply (all_shape s x Hs). apply in_or_app. right. apply in_or_app. right.
       apply in_flat_map. exists k. auto. }
     destruct Hc as [Hc|[Hc|[Hc|[]]]].
     - apply (okc_clean cp bl iv (c_name k) c); [apply P; simpl; auto|apply A; simpl; auto|exact Hc].
     - apply (okc_clean cp bl iv (c_type k) c); [apply P; simpl; auto|apply A; simpl; auto|exact Hc].
-    - apply (okc_raw cp bl iv (constraint_abbr k) c); [apply P; simpl; auto|exact Hc].
+    - apply (okc_clean cp bl iv (constraint_abbr k) c); [apply P; simpl; auto|apply A; simpl; auto|exact Hc].
   Qed.
 
   Lemma chars_flat_map {A} (f : A -> list item) l c :
@@ -378,17 +378,29 @@ Section Board.
   Lemma drawn_legend_ok c :
     In c (chars_of (match lg with Some g => drawn_legend g | None => [] end)) -> okc cp bl iv c.
   Proof.
-    unfold corpus, board_corpus. destruct lg as [g|]; [|intros []]. intro Hc.
-    left. apply in_or_app. right. apply in_or_app. right.
-    unfold legend_corpus. rewrite !in_app_iff.
-    assert (K : In c (chars_of ((1, if nonempty (g_label g) then g_label g else s_Legend)
-                  :: map (fun l => (0, l)) (filter nonempty (g_shapes g))
-                  ++ map (fun l => (0, l)) (filter nonempty (g_conns g))))).
+    unfold corpus, board_corpus, has_invalid_xml, all_strings. destruct lg as [g|]; [|intros []]. intro Hc.
+    assert (K : In c (chars_of ((1, xml_clean (if nonempty (g_label g) then g_label g else s_Legend))
+                  :: map (fun l => (0, xml_clean l)) (filter nonempty (g_shapes g))
+                  ++ map (fun l => (0, xml_clean l)) (filter nonempty (g_conns g))))).
     { unfold drawn_legend in Hc. destruct (g_shapes g); [destruct (g_conns g); [destruct Hc|exact Hc]|exact Hc]. }
-    unfold chars_of in K. cbn [flat_map snd] in K. apply in_app_or in K as [K|K]; [left; exact K|right].
-    rewrite flat_map_app in K. apply in_app_or in K as [K|K]; [left|right];
-      apply in_flat_map in K as [it [Hit K]]; apply in_map_iff in Hit as [l [<- Hl]]; apply filter_In in Hl as [Hl _];
-      apply in_concat_iff; exists l; auto.
+    clear Hc.
+    assert (X : exists p, In c (xml_clean p) /\ incl p (legend_corpus g) /\
+                          (p = s_Legend \/ In p (g_label g :: g_shapes g ++ g_conns g))).
+    { unfold chars_of in K. cbn [flat_map snd] in K. apply in_app_or in K as [K|K].
+      - exists (if nonempty (g_label g) then g_label g else s_Legend). split; [exact K|]. split.
+        + unfold legend_corpus. apply incl_app_l, incl_refl.
+        + destruct (nonempty (g_label g)); [right; left; reflexivity|left; reflexivity].
+      - rewrite flat_map_app in K. apply in_app_or in K as [K|K];
+          apply in_flat_map in K as [it [Hit K]]; apply in_map_iff in Hit as [l [<- Hl]];
+          apply filter_In in Hl as [Hl _]; exists l; (split; [exact K|]); split.
+        + unfold legend_corpus. apply incl_app_r, incl_app_l. intros x Hx. apply in_concat_iff. exists l. auto.
+        + right. right. apply in_or_app. left. exact Hl.
+        + unfold legend_corpus. apply incl_app_r, incl_app_r. intros x Hx. apply in_concat_iff. exists l. auto.
+        + right. right. apply in_or_app. right. exact Hl. }
+    destruct X as [p [Hc [Hi Hp]]]. apply xml_clean_in in Hc as [Hc|[-> B]].
+    - left. apply in_or_app. right. apply in_or_app. right. apply Hi, Hc.
+    - right. right. split; [reflexivity|]. destruct Hp as [->|Hp]; [vm_compute in B; discriminate B|].
+      apply existsb_exists. exists p. split; [|exact B]. apply in_or_app. right. apply in_or_app. right. exact Hp.
   Qed.
 
   Theorem drawn_render_ok c : In c (chars_of (drawn_render d)) -> okc cp bl iv c.
